@@ -4,6 +4,12 @@ _BASE_NOTE = ("Trusted: CrossHair's symbolic models of str/int/list and z3 (for 
               "bounds per condition as written to evidence (pre: lines). Nothing is claimed outside the bounds.")
 
 CLAIMS = {
+    "C03": {
+        "technique": "bounded symbolic execution (CrossHair/z3): symbolic string contents through the real string printers re-lexed by a reference lexer; documents x indent settings through print -> parse -> print",
+        "text": "Block strings: every parser-producible value of <= 2/3 symbolic characters, as a value (4 indents) and as a description, prints to one block string token with that value (exhausted). Quoted strings: same bound, sampled at the json.dumps boundary (reported as sampled). "
+                "Documents: 71 documents covering every node kind and printer-specific string shapes x 5 indents: deterministic, re-parse equal up to positions, re-print identical.",
+        "note": _BASE_NOTE + " Trees the parser cannot produce are outside the claim.",
+    },
     "C15": {
         "technique": "bounded symbolic execution (CrossHair/z3): the standard introspection query on generated schemas against a reference computed from the schema objects; symbolic String defaults through _format_default_value",
         "text": "Generator schemas (12 default kinds x 4 recursion patterns) and a code-built schema x 2 executors: kinds, names, descriptions, fields, args, input fields, enum values, interfaces and possible types (as sets), directives, roots, deprecation equal the reference; "
